@@ -221,6 +221,10 @@ def check_session(run, scn, actor=0, model=None, relaxed_from=None):
     return probs
 
 
+def _sp(path):
+    return path if len(path) <= 48 else path[:20] + '...(%d chars)...' % len(path) + path[-12:]
+
+
 def check_push(run, op, rec, where):
     """C07: what the device's sync service decoded vs. the source."""
     probs = []
@@ -234,19 +238,19 @@ def check_push(run, op, rec, where):
     seen = {}
     for p in mine:
         if p['path'] in seen:
-            probs.append(P('push-duplicate', '%s: SEND for %r issued more than once' % (where, p['path'])))
+            probs.append(P('push-duplicate', '%s: SEND for %r issued more than once' % (where, _sp(p['path']))))
         seen[p['path']] = p
     for path, data in want.items():
         p = seen.get(path)
         if p is None:
-            probs.append(P('push-missing', '%s: device never received SEND for %r (got %r)' % (where, path, sorted(seen))))
+            probs.append(P('push-missing', '%s: device never received SEND for %r (got %r)' % (where, _sp(path), sorted(_sp(x) for x in seen))))
             continue
         if not p.get('done'):
-            probs.append(P('push-incomplete', '%s: push returned but the device saw no DONE / sent no OKAY for %r' % (where, path)))
+            probs.append(P('push-incomplete', '%s: push returned but the device saw no DONE / sent no OKAY for %r' % (where, _sp(path))))
             continue
         if bytes(p['data']) != data:
             j = first_diff(bytes(p['data']), data)
-            probs.append(P('push-content', '%s: device received %s for %r, source is %s (first difference at %d)' % (where, brief(p['data']), path, brief(data), j)))
+            probs.append(P('push-content', '%s: device received %s for %r, source is %s (first difference at %d)' % (where, brief(p['data']), _sp(path), brief(data), j)))
         want_mode = int(op.get('mode', 33272))
         if p['mode'] != want_mode:
             probs.append(P('push-mode', '%s: SEND mode %r, expected %d' % (where, p['mode'], want_mode)))
@@ -262,13 +266,13 @@ def check_push(run, op, rec, where):
             probs.append(P('push-early-return', '%s returned before the device processed DONE' % where))
     for path in seen:
         if path not in want:
-            probs.append(P('push-extra', '%s: unexpected SEND for %r' % (where, path)))
+            probs.append(P('push-extra', '%s: unexpected SEND for %r' % (where, _sp(path))))
     cb = rec.get('cb_calls')
     if op.get('cb') and cb is not None:
         for path, data in want.items():
             tot = sum(c[1] for c in cb if c[0] == path)
             if tot != len(data):
-                probs.append(P('callback-count', '%s: progress callback byte counts for %r sum to %d, source has %d' % (where, path, tot, len(data))))
+                probs.append(P('callback-count', '%s: progress callback byte counts for %r sum to %d, source has %d' % (where, _sp(path), tot, len(data))))
             bad = [c for c in cb if c[0] == path and c[2] != len(data)]
             if bad:
                 probs.append(P('callback-total', '%s: callback total_bytes %r, source has %d' % (where, bad[0][2], len(data))))
